@@ -235,6 +235,10 @@ func ifErrorOnFailure(p *Prog, fn *ssa.Function, failWhen bool, pats ...string) 
 func init() {
 	register("C02", func(c *Ctx) {
 		p := c.P
+		c02OverrideOnlyWhenAbsent(c)
+		memoKeyRule(c, "memo-key", func(pk string) bool {
+			return pk == "core" || strings.HasPrefix(pk, "adapters/") || strings.HasPrefix(pk, "starknetdata") || pk == "blockchain" || pk == "sync"
+		})
 		c.Explain = "Structural conditions of block verification decided from SSA: (preimage-coverage) labelled forward flow — every committed field of Header/transactions/receipts/events/state-diff sections/classes reaches a hash sink (crypto.Pedersen*/Poseidon*/digest.Update*/StarknetKeccak) in the corresponding hash function and version arm; " +
 			"(version-dispatch) BlockHash, VerifyTransactions and the transaction-commitment select formulas under the protocol's version thresholds; (verify-success) the success exits of SanityCheckNewHeight, VerifyBlockHash, VerifyTransactions and VerifyClassHashes are reachable only with every comparison passed; (tx-exhaustive) TransactionHash covers every Transaction implementation; (succession-first) the Store closure checks parent hash/number before any write. " +
 			"Not decided: that the computed hashes equal the network's, collision resistance, old-format fixture blocks."
@@ -816,4 +820,63 @@ func c02NilResultOfCallback(c *Ctx) {
 	}
 	_ = n
 	c.needFixture("nil-result-of-callback")
+}
+
+// c02OverrideOnlyWhenAbsent: (override-only-when-absent) VerifyBlockHash may hash a header with a substitute sequencer address
+// (zero / the network's fallback) only for headers that carry none. Decided: at every call of core.BlockHash reachable from
+// VerifyBlockHash, the override argument is nil unless the header's own SequencerAddress was found to be nil — either on
+// the path to the call or as the condition selecting the non-nil arm of the φ that produces the argument. Seeded change
+// C02-L tries the substitutes for every legacy header: a block whose SequencerAddress was tampered with still verifies
+// (the sequencer address is in the post-0.7 preimage).
+func c02OverrideOnlyWhenAbsent(c *Ctx) {
+	p := c.P
+	f := p.Func("core", "", "VerifyBlockHash")
+	bh := p.Func("core", "", "BlockHash")
+	if f == nil || bh == nil {
+		c.und("override-only-when-absent", "core.VerifyBlockHash", "", "anchor not found")
+		return
+	}
+	idx := -1
+	for i, pa := range bh.Params {
+		if strings.HasSuffix(pa.Type().String(), "felt.Felt") && idx < 0 {
+			idx = i
+		}
+	}
+	n := 0
+	for _, ds := range p.deepSites(f, func(s Site) bool { return s.Callee == bh }, 2) {
+		args := ds.Site.Args()
+		if idx < 0 || idx >= len(args) {
+			continue
+		}
+		n++
+		a := args[idx]
+		ok, why := false, ""
+		if isNilConst(a) {
+			ok = true
+		} else {
+			d := p.mustHoldDeep(ds)
+			if o, _ := everyDisjunctHas(d, []string{"SequencerAddress == nil"}); o {
+				ok = true
+			} else if ph, isPhi := a.(*ssa.Phi); isPhi {
+				// every non-nil arm comes from a predecessor that is reached only under SequencerAddress == nil
+				ok = true
+				for i, e := range ph.Edges {
+					if isNilConst(e) {
+						continue
+					}
+					pred := ph.Block().Preds[i]
+					dd := p.mustHoldAt(pred.Instrs[len(pred.Instrs)-1])
+					if o, m := everyDisjunctHas(dd, []string{"SequencerAddress == nil"}); !o {
+						ok, why = false, m
+					}
+				}
+			} else {
+				why = "override = " + term(a)
+			}
+		}
+		c.check(ok, "override-only-when-absent", "VerifyBlockHash → BlockHash override", p.Pos(ds.Site.Pos()), "a substitute sequencer address is used only for headers that carry none", "the block hash is recomputed with a substitute sequencer address although the header carries its own ("+clip(why, 200)+"): a header whose SequencerAddress was altered still verifies under the genuine hash")
+	}
+	if n == 0 {
+		c.und("override-only-when-absent", "VerifyBlockHash", p.Pos(fnPos(f)), "no call of core.BlockHash found")
+	}
 }
